@@ -22,3 +22,18 @@ package main
 //@ func matchEnode
 //@ trusted string comparison helper
 //@ modifies nothing
+
+// ---- the pool's HTTP front end (C09): a websocket connection that stops being served is always handed to the
+// disconnect hook (the pool's CloseRemote), whatever made the read loop end -- EOF, a read error or a protocol error.
+// Stated over the ghost logs of this function's own calls of (*Remote).Serve and of the onDisconnect hook.
+//@ funcfield server.onDisconnect(remote) (err)
+//@ modifies nothing
+
+//@ funcfield server.healthCheck(w) (err)
+//@ modifies nothing
+
+//@ func (*server).ServeHTTP
+//@ property C09
+//@ ensures [every-served-connection-is-closed-out] {C09} callcount("Serve") > 0 && s.onDisconnect != nil ==>
+//@        callcount("onDisconnect") == 1 && ref(callarg("onDisconnect", 0)[0]) == callarg("Serve", 0)[0]
+//@ ensures [served-at-most-once] {C09} callcount("Serve") <= 1 && callcount("onDisconnect") <= callcount("Serve")
